@@ -102,8 +102,19 @@ func vfH_C12_expand(tier int) {
 		{"*", ""}, {"*::field", ""}, {"*::tag", ""}, {"/a/", ""}, {"b, *", ""}, {"*", " GROUP BY t"}, {"*", " GROUP BY *"}, {"a", " GROUP BY *"},
 		{"mean(*)", ""}, {"count(*)", ""}, {"max(/a|b/)", ""}, {"a, b", ""}, {"*", " GROUP BY /t/"}, {"holt_winters(*, 1, 2)", ""},
 		{"cumulative_sum(count(*))", ""}, {"count(mean(*))", ""}, {"difference(max(/a|b/))", ""}, {"derivative(holt_winters(*, 1, 2))", ""},
+		// a subquery whose own wildcard must be expanded first: the outer reference gets the type of the expanded column
+		{"a", "@(SELECT * FROM m1)"}, {"a, t", "@(SELECT b FROM m1 GROUP BY *)"},
 	}
 	sh := shapes[vfChoice(len(shapes))]
+	subq := ""
+	if len(sh.groupBy) > 0 && sh.groupBy[0] == '@' { // a subquery source instead of the measurement list
+		if nm == 2 {
+			return
+		}
+		subq = sh.groupBy[1:]
+		src = subq
+		sh.groupBy = ""
+	}
 	text := "SELECT " + sh.fields + " FROM " + src + sh.groupBy
 	vfNote(text)
 	stmt, err := ParseStatement(text)
@@ -194,7 +205,32 @@ func vfH_C12_expand(tier int) {
 		}
 		return &VarRef{Val: n}
 	}
+	// the type an outer reference gets from a subquery column (first field of that name in the expanded
+	// inner list - sorted by name, then by type, where tag sorts before unsigned -, else a GROUP BY tag)
+	subType := func(n string, innerHasFields bool) DataType {
+		if innerHasFields && hasField[n] {
+			if tagSet[n] {
+				return DataType(vfIteInt(merged[n] == Unsigned, int(Tag), int(merged[n])))
+			}
+			return merged[n]
+		}
+		if innerHasFields && !hasField["a"] && !hasField["b"] {
+			return Unknown // a wildcard over a measurement without fields expands to nothing, tags included
+		}
+		if tagSet[n] {
+			return Tag
+		}
+		return Unknown
+	}
 	switch sh.fields {
+	case "a":
+		if subq != "" {
+			want = append(want, &Field{Expr: &VarRef{Val: "a", Type: subType("a", true)}})
+		} else {
+			want = append(want, &Field{Expr: typed("a")})
+		}
+	case "a, t":
+		want = append(want, &Field{Expr: &VarRef{Val: "a", Type: subType("a", false)}}, &Field{Expr: &VarRef{Val: "t", Type: subType("t", false)}})
 	case "*":
 		star(0)
 	case "*::field":
@@ -210,8 +246,6 @@ func vfH_C12_expand(tier int) {
 	case "b, *":
 		want = append(want, &Field{Expr: typed("b")})
 		star(0)
-	case "a":
-		want = append(want, &Field{Expr: typed("a")})
 	case "a, b":
 		want = append(want, &Field{Expr: typed("a")}, &Field{Expr: typed("b")})
 	case "mean(*)":
@@ -236,6 +270,15 @@ func vfH_C12_expand(tier int) {
 		callStar("holt_winters", any, func(t DataType) bool { return t == Float || t == Integer }, []Expr{&IntegerLiteral{Val: 1}, &IntegerLiteral{Val: 2}})
 	}
 	vfAssert(vfDeepEqual(out.Fields, want), "C12/fields-are-exactly-the-matching-schema-columns-sorted-and-typed")
+	if subq == "(SELECT * FROM m1)" {
+		// the subquery's own wildcard is expanded like a top-level one
+		var inner Fields
+		for _, c := range cols {
+			inner = append(inner, &Field{Expr: &VarRef{Val: c.name, Type: c.typ}})
+		}
+		sq, ok := out.Sources[0].(*SubQuery)
+		vfAssert(ok && vfDeepEqual(sq.Statement.Fields, inner), "C12/subquery-wildcard-is-expanded-to-the-schema-columns")
+	}
 	// dimensions
 	var wantDims Dimensions
 	switch sh.groupBy {
